@@ -405,7 +405,10 @@ fn misc_trees() -> Vec<(String, Entry, bool)> {
     for (i, mt) in [0i128, 1, 1_600_000_000_123_456_789, 7_258_118_400_000_000_000, -1_000_000_000].iter().enumerate() {
         let mut e = Entry::file(lcg(20 + i as u64, 40), T0);
         e.meta = Meta { mode: Some(0o644), mtime: Some(*mt), ctime: Some(*mt), ..Default::default() };
-        t.insert(&format!("mtime{i}"), e);
+        t.insert(&format!("mtime{i}"), e.clone());
+        // the same with a recorded access time that differs from the modification time
+        e.meta.atime = Some(1_000_000_000_000_000_000 + i as i128);
+        t.insert(&format!("mtime{i}-atime"), e);
     }
     let mut d = Entry::dir(T0 + 12);
     d.meta.mode = Some(0o700);
